@@ -6,7 +6,7 @@
    meaning is numpy's row-major meaning of reshape / transpose fixed there, and so that the
    extracted equivalence checker can compare it with the graph einx really builds. *)
 From Coq Require Import List NArith Arith Bool String.
-From EinxV Require Import Spec.LoopSem Model.Opt.
+From EinxV Require Import Base.Sexp Gen.GenAdapter Spec.LoopSem Model.Opt.
 Import ListNotations.
 Open Scope N_scope.
 
@@ -57,3 +57,26 @@ Definition lower_elementwise (f : String.string) (ins : list (list pex)) (dout :
            (map psize dout).
 Definition elementwise_ok (ins : list (list pex)) (dout : list pex) : bool :=
   forallb (fun din => align_ok din dout) ins.
+
+(* ---- reductions ----
+   reshape the tensor to its leaf axes, hand it to the backend's reduction with axis = the positions of the bracketed
+   leaves (the kernel regenerated from _expr_to_axis, Gen/GenAdapter.v), rearrange the remaining leaves into the output *)
+Definition lmarks (dims : list pex) : list bool := map (fun x => snd x) (leaves dims).
+Definition kept (din : list pex) : list pex :=
+  map (fun x => PAx (fst (fst x)) (snd (fst x)) false) (filter (fun x => negb (snd x)) (leaves din)).
+Definition join_str (sep : string) (l : list string) : string :=
+  match l with [] => EmptyString | x :: r => fold_left (fun acc y => append (append acc sep) y) r x end.
+Definition axis_lit (ax : list nat) : string :=
+  match ax with
+  | [k] => EinxV.Base.Sexp.string_of_nat k
+  | _ => append "[" (append (join_str "," (map EinxV.Base.Sexp.string_of_nat ax)) "]")
+  end.
+Definition lower_reduce (f : string) (din dout : list pex) : tm :=
+  let ax := EinxV.Gen.GenAdapter.gen_expr_to_axis (lmarks din) in
+  let red := MOther f [MReshape (MIn 0 (map psize din)) (llens din)] [axis_lit ax; "kw:axis"%string] (llens (kept din)) in
+  MReshape (MTranspose (MReshape red (llens (kept din))) (perm_of (kept din) dout)) (map psize dout).
+
+Fixpoint unoffset (p : pex) : bool :=
+  match p with PAx _ _ _ => true | PFl cs => forallb unoffset cs | POff _ _ _ => false end.
+Definition reduce_ok (din dout : list pex) : bool :=
+  forallb unoffset din && nodupb (lnames din) && rearrange_ok (kept din) dout.
